@@ -29,6 +29,8 @@ type Exec struct {
 	spec       *FuncSpec
 	decls      *Decls
 	baseArrays map[string]Sort
+	wildDeclared map[string]bool
+	wildSeq int
 	nfresh     int
 	work       []*State
 	results    []*PathResult
